@@ -605,15 +605,18 @@ def guards(case, r):
     return None
 
 
+SE3_BAND = 0.5
+
+
 def site_info(case, r):
     """coefficient sites met by this case.
     band  : some Exp / Log / Jinvp / Retr node evaluates so3_Jl, rxso3_Ws or (SE3) calcQ / so3_Jl_inv coefficients where
-            the closed forms lose accuracy by cancellation ((1-cos t)/t^2 etc.: eps < theta < 1e-3), or is an SE3 node
-            (calcQ closed forms above 0.05) — the 4*sqrt(eps) allowance of the property applies;
+            the closed forms lose accuracy by cancellation ((1-cos t)/t^2 etc.: eps < theta < 1e-3), or is an SE3 node with
+            theta < 0.5 (calcQ closed forms above 0.05 lose 60 eps/theta^4) — the 4*sqrt(eps) allowance of the property applies;
     trunc : relative allowance for the documented truncation of sim3_Jl / sim3_Jl_inv (sum over the Sim3 sites)"""
     P = U.pp()
     eps = common.EPS[case["dtype"]]
-    band, trunc = False, 0.0
+    band, trunc = 0.0, 0.0
     for kind, g, x in r.rec:
         if x.numel() == 0:
             continue
@@ -624,8 +627,15 @@ def site_info(case, r):
         else:
             th = quat_angle(x[..., U.QSL[g]])
             xi = None
-        if g == "SE3" or kind == "Jinvp" or bool(((th > eps) & (th < 1e-3)).any()):
-            band = True          # Jinvp: autograd differentiates the closed form of so3_Jl_inv, which cancels like eps/theta^2
+        # graded allowance (float64): Jinvp (autograd differentiates the closed form of so3_Jl_inv, which cancels like eps/theta^2) and
+        # coefficient sites with eps < theta < 1e-3 get the property's 4*sqrt(eps); an SE3 site in the cancellation zone of the closed
+        # forms of calcQ (0.05 < theta < 0.5: they lose 60 eps/theta^4 — 2e-9 at 0.05, 2e-13 at 0.5) gets 600 eps/theta_min^4
+        if kind == "Jinvp" or bool(((th > eps) & (th < 1e-3)).any()):
+            band = max(band, 4 * math.sqrt(common.EPS["float64"]))
+        if g == "SE3":
+            zone = th[(th > 0.05) & (th < SE3_BAND)]
+            if zone.numel():
+                band = max(band, 600 * common.EPS["float64"] / float(zone.min()) ** 4)
         if g == "Sim3":
             if xi is None:
                 with torch.no_grad():
@@ -645,8 +655,11 @@ def tol_rel(dtype, band):
     """relative tolerance of gradient comparisons (coordinator's ruling, notes/C04.md): 4*sqrt(eps_dtype) in general —
     the allowance the property gives the translation block of Exp, because (1-cos t)/t^2 legitimately loses up to 5e-9
     near t = 1e-8 — and 1e4*eps for float64 programs that meet no coefficient site in a cancellation band"""
-    if dtype == "float64" and not band:
-        return 1e4 * common.EPS["float64"]
+    if dtype == "float64":
+        if not band:
+            return 1e4 * common.EPS["float64"]
+        b = 4 * math.sqrt(common.EPS["float64"]) if band is True else float(band)
+        return max(1e4 * common.EPS["float64"], min(b, 4 * math.sqrt(common.EPS["float64"])))
     return 4 * math.sqrt(common.EPS[dtype])
 
 
